@@ -536,6 +536,15 @@ def parse_graph(out_bytes):
     return nodes
 
 
+def disp(ns):
+    """a time as print_time_unit() shows it: three decimals of the unit (us, ms, s)"""
+    if ns < 10 ** 6:
+        return ns
+    if ns < 10 ** 9:
+        return ns // 1000 * 1000
+    return ns // 10 ** 6 * 10 ** 6
+
+
 def mon_graph(tr, out_bytes):
     calls, _ = reference(tr)
     agg = ref_paths(calls)
@@ -550,7 +559,7 @@ def mon_graph(tr, out_bytes):
         if path[0] != root or path[1:] in got:
             return "graph: duplicate or misplaced node %r" % (path,)
         got[path[1:]] = (n, tot, slf)
-    want = {p: (n, tot, slf) for p, (n, tot, slf) in agg.items()}
+    want = {p: (n, disp(tot), disp(slf)) for p, (n, tot, slf) in agg.items()}
     if got != want:
         bad = [p for p in set(got) | set(want) if got.get(p) != want.get(p)][:2]
         return "graph: count/time differ at %r: got %r want %r" % (bad, [got.get(p) for p in bad], [want.get(p) for p in bad])
@@ -736,6 +745,11 @@ def corpus_traces():
     # the code comment of adjust_fg_time: main 10.567us, foo 4.789, bar 4.987 with 1us samples
     out.append(Trace(A, one, seq([("E", 0, 0, 10000), ("E", 0, 1, 10100), ("X", 0, 1, 14889), ("E", 0, 2, 15000), ("X", 0, 2, 19987),
                                   ("X", 0, 0, 20567)]), elapsed="0.5 sec", desc="corpus: sample accounting example"))
+    cdir = os.path.join(C.VERIF, "corpus", "C15")
+    if os.path.isdir(cdir):
+        for f in sorted(os.listdir(cdir)):
+            if f.endswith(".json"):
+                out.append(Trace.from_json(json.load(open(os.path.join(cdir, f)))))
     return out
 
 
@@ -750,12 +764,19 @@ def run_cases(ctx, only):
     rng = ctx.rng
     known = {f["id"]: f for f in C.known_findings("C15")}
     nviol = [0]
+    per_finding = Counter()
 
     def report(name, obj, nfi=False, finding=None):
         if finding and finding in known:
             C.known(ctx, known[finding], "%s %s" % (finding, known[finding].get("what", "")[:160]))
             return
-        if nviol[0] < 6:
+        if only is not None:
+            ctx.violations.append(("(replay) %s: %s" % (name, obj.get("what")), nfi))     # no files in replay mode
+        elif finding:
+            per_finding[finding] += 1
+            if per_finding[finding] <= 2:          # two concrete inputs per defect
+                C.violation(ctx, name, obj, no_failing_input=nfi)
+        elif nviol[0] - sum(per_finding.values()) < 6:
             C.violation(ctx, name, obj, no_failing_input=nfi)
         nviol[0] += 1
 
@@ -925,8 +946,7 @@ def run_cases(ctx, only):
                                    "theorem": {"F9": "c15_chrome_valid; c15_prefix_comm_quote_witness, c15_prefix_cmdline_backslash_witness",
                                                "F9b": "c15_chrome_valid; c15_prefix_empty_trace_witness",
                                                "S3": "c15_name_buf_safe; c15_prefix_name_buf_overflow_witness, c15_prefix_name_buf_cut_witness"}[fid]})
-                        if stats["defect_" + fid] <= 2 or fid in known:
-                            report("%s-t%d" % (fid, i), r2, finding=fid)
+                        report("%s-t%d" % (fid, i), r2, finding=fid)
                 elif bad:
                     rep["kind"] = "property-violated-on-implementation"
                     rep["theorem"] = "c15_chrome_valid, c15_chrome_balanced"
@@ -945,7 +965,10 @@ def run_cases(ctx, only):
                 else:
                     implc = " ".join("%d:%s:%d:%d:%d" % (len(p) - 1, hx(p[-1]), n, tot, slf if len(p) > 1 else 0)
                                      for p, n, tot, slf in nodes)
-                exp = mo if tr.recs else ""
+                exp = ""
+                if tr.recs:
+                    toks = [t.split(":") for t in mo.split()]
+                    exp = " ".join("%s:%s:%s:%d:%d" % (a, b, c, disp(int(d)), disp(int(e))) for a, b, c, d, e in toks)
                 same = C.norm(implc) == C.norm(exp)
                 bad = mon_graph(tr, out)
             else:
@@ -980,8 +1003,7 @@ def run_cases(ctx, only):
                             "model_prefix": exp0[:3000].decode("latin-1"), "matches_prefix_model": True,
                             "kind": "property-violated-on-implementation", "finding": "F9c",
                             "theorem": "c15_flame_lines; c15_prefix_flame_digits_witness"})
-                if stats["defect_F9c"] <= 2 or "F9c" in known:
-                    report("F9c-t%d-%s" % (i, mode), rep, finding="F9c")
+                report("F9c-t%d-%s" % (i, mode), rep, finding="F9c")
                 continue
             rep.update({"what": bad, "impl_output": out[:3000].decode("latin-1"),
                         "model_output": (exp[:3000].decode("latin-1") if isinstance(exp, bytes) else exp[:3000])})
@@ -994,6 +1016,12 @@ def run_cases(ctx, only):
                 rep["kind"] = "model-code-disagreement"
                 report("%s-corr-t%d" % (mode, i), rep, True)
 
+    if only is not None:
+        for k in ctx.known_printed:
+            print(k)
+        for path, nfi in ctx.violations:
+            print("VIOLATION property=C15 %s" % path)
+        return 1 if ctx.violations else 0
     ctx.coverage.update({
         "evaluations": stats["runs"] + stats["h4"] + stats["json_probe"] + stats["body_probe"],
         "distinct_nontrivial": len(distinct) + 256 + 255,
@@ -1038,6 +1066,8 @@ def replay(ctx, path):
         print(json.dumps(r, indent=1)[:4000])
         return 0
     tr = Trace.from_json(r["trace"])
-    rc = run_cases(ctx, tr)
     print(json.dumps({k: r.get(k) for k in ("kind", "what", "mode", "finding", "theorem")}, indent=1))
+    rc = run_cases(ctx, tr)
+    print("replayed on %s: %s" % (C.REPO, "reproduced (%d violation(s), %d known finding(s))" %
+                                  (len(ctx.violations), len(ctx.known_printed)) if rc or ctx.known_printed else "not reproduced"))
     return rc
